@@ -81,6 +81,7 @@ FieldOK(f, e, o) ==
     [] f = "code" -> e.code = "*" \/ o.code = "?" \/ o.code = e.code
     [] f \in {"body", "etag", "xetag", "cetag"} -> f \in DOMAIN o /\ o[f] = e[f]
     [] f = "vid"  -> (e.vid # "" /\ SubSeq(e.vid, 1, 1) \in {"?", "*"}) \/ ("vid" \in DOMAIN o /\ o.vid = e.vid)
+    [] f = "status" -> "status" \in DOMAIN o /\ o.status = e.status
     [] f = "keys" -> "keys" \in DOMAIN o /\
                      o.keys = [i \in 1..Len(e.keys) |-> [k |-> e.keys[i].k, body |-> e.keys[i].body]]
     [] OTHER -> TRUE
